@@ -47,6 +47,10 @@ CLAIMED = {
    text="Twin runs: the unoptimised context U (compiler output before the last optimisation round, or a generated inlined graph decorated with Random/PRF nodes, Send-annotated NOPs, duplicates, foldable constants, tuple plumbing, dangling nodes) and O = optimize_context(U) are executed by the three-party simulator under the same inputs, junk, schedule policy and tapes addressed by original node identity through the returned mapping. Every mapped node carries the same value at every party, outputs are equal, O delivers only messages U delivers, input nodes are identical in number/order/type/name, and every recorded type equals the type re-derived after a serde reload.",
    note="Trusts: addressed tapes (random draws keyed by original node identity) as the meaning of 'the same random draws'; the stub party runtime (see C02).",
    technique="deterministic three-party simulation, differential twin runs (unoptimised vs optimised) under replayed tapes, junk and schedules"),
+ "C03": dict(engine="trisim", category="exploration", design_ref="§4 C03",
+   text="Exact mode: for seeded bit-typed micro programs (owners incl. shared, all output sets) the PRF is idealised inside the simulator (symbolic keys, one tape slot per (key, counter)); per observer the live tape bits are found by a sound structural taint analysis and EVERY tape is enumerated for EVERY input assignment; the multisets of the observer's view (messages received, held shares, own correlated randomness, output) are compared exactly between assignments that agree on the observer's inputs and output. Sampled mode: 8..64-bit programs (multiply chains, oblivious transfer, truncation, A2B) under the real AES PRF, thousands of tapes per world, conservative two-sample chi-square on byte projections of every value the observer holds.",
+   note="Trusts: the idealised-oracle substitution (PRF outputs for distinct (key, counter) are independent uniform); keys are symbolic so key bits are not part of the compared view; the observer supplies zeros for what it does not hold. Sampled mode finds gross leaks only; Join is excluded (reveals OPRF images by design).",
+   technique="deterministic three-party simulation recording per-party views; exhaustive enumeration of random tapes on micro programs inside a seeded search; statistical two-world comparison otherwise"),
 }
 
 NOT_YET = {
